@@ -474,7 +474,7 @@ def rewrite_format(src, ed, lo, hi, log):
 def rewrite_method_shims(src, ed, lo, hi, shims, log):
     """R13: `RECV.m(ARGS)` -> `shim(RECV, ARGS)` for the listed provided trait methods (name -> (shim, recv_prefix))."""
     sig = src.sig
-    for i in range(lo + 1, hi - 1):
+    for i in reversed(range(lo + 1, hi - 1)):   # right to left: the outer call of a chain is inserted first
         t = sig[i]
         if t.kind == 'id' and t.text in shims and sig[i - 1].text == '.' and sig[i + 1].text == '(':
             shim, prefix = shims[t.text]
